@@ -2,4 +2,5 @@ SPECIFICATION HSpec
 CONSTANTS Threads = {1,2,3}
   Rounds = {0,1}
 INVARIANT ReleaseEnabled
+INVARIANT ReleasedOK
 CHECK_DEADLOCK FALSE
